@@ -1,6 +1,6 @@
 """Source of truth for MANIFEST.json (run: python -m vlib.mkmanifest)."""
 
-REPO_FIX_COMMITS = ["04f98b2", "9ce180e", "cfc2ed2", "1d8dc7e", "8ef3efb", "a7c5d9c", "2fb9873", "812fbc2", "343713a", "2036f84", "8402cd8", "1e36e27", "ed92c78"]
+REPO_FIX_COMMITS = ["04f98b2", "9ce180e", "cfc2ed2", "1d8dc7e", "8ef3efb", "a7c5d9c", "2fb9873", "812fbc2", "343713a", "2036f84", "8402cd8", "1e36e27", "ed92c78", "c0485e3", "a0c4921", "9103dfd"]
 
 CHECKS = {
     "C10": {
@@ -20,6 +20,12 @@ CHECKS = {
         "text": "Responses are built from a payload by independent encoders (zlib, gzip, zstandard, chunked framing) and delivered in generated segment sizes; generated sequences of read/read1/readinto/stream/read_chunked/iteration calls with an explicit decode_content are run and the concatenation, per-call size bounds, end-of-body behaviour, preloaded .data and tell() are compared with the payload.",
         "note": "Trusts vlib/respgen.py encoders and vlib/fakenet.py. Known finding KF-C12-mix (reader-family switch on chunked bodies) is excluded by construction and counted.",
         "design_ref": "DESIGN.md section 4, C12",
+    },
+    "C13": {
+        "technique": "Hypothesis-generated responses (C12's generator) x bounded-exhaustive single mutations (every cut position, every chunk-size line, byte flips, consistent-framing truncation, conflicting Content-Length) x read patterns on an in-memory socket; three-valued oracle from framing arithmetic and zlib/zstandard run directly on the mutated content; second request on the same pool",
+        "text": "For each generated response every truncation point of the body section and every listed corruption is served once per read pattern through the real http.client/urllib3 stack; where independent facts say the body is cut off or undecodable the drain must end in ProtocolError/IncompleteRead/DecodeError, where they say it is intact the exact bytes must come back, and for pool responses the broken connection must be closed and the next request served on another socket.",
+        "note": "Trusts zlib and zstandard as judges (zstd verdict demanded only where one-shot and byte-wise feeding agree), vlib/respgen.py, vlib/fakenet.py. Cuts inside the terminating chunk line and truncated gzip/deflate without framing evidence are 'either'. Known finding KF-C13-decode-after-release is matched by signature and counted.",
+        "design_ref": "DESIGN.md section 4, C13",
     },
     "C14": {
         "technique": "bounded-exhaustive string enumeration + Hypothesis grammar/unicode generation; oracles: totality, normal-form predicates, idempotence round-trip, differential against an independent RFC 3986 splitter, CPU-time scaling",
